@@ -115,8 +115,6 @@ class HashIntervals(Intervals):
 def reader_paths(prog, ctx, fname):
     f = prog.method(ctx, fname)
     ps = [p for p in paths(prog, ctx, f, inline="deep") if p.exit[0] == "return"]
-    if not ps:
-        raise AnalysisError(f"no normal path through loader {ctx}.{fname}")
     return f, ps
 
 
@@ -129,6 +127,9 @@ def check_footer(prog, rep, family, wctx, wfmt, wslots, rctx, rname):
     f, ps = reader_paths(prog, rctx, rname)
     rep.analysed(f, rctx, len(ps))
     where = f"{rctx}.{rname}"
+    if not ps:
+        rep.bad("C05.slot-to-field", where, "loader cannot succeed", f"no path through {where} returns normally: what was exported can never be loaded back", f.where())
+        return
     for p in ps:
         obj = loaded_obj(f, p)
         if obj[0] not in ("self", "new"):
@@ -157,6 +158,8 @@ def check_footer(prog, rep, family, wctx, wfmt, wslots, rctx, rname):
 def check_payload(prog, rep, family, rctx, rname, pfield):
     f, ps = reader_paths(prog, rctx, rname)
     where = f"{rctx}.{rname}"
+    if not ps:
+        return
     tcs = alloc_typecodes(prog, rctx, pfield) or typed_fields(prog, rctx).get(pfield, set())
     for p in ps:
         obj = loaded_obj(f, p)
